@@ -148,14 +148,7 @@ Print Assumptions C17_stream_threaded.
 
 (* the stream itself is part of the model (Mt19937.v: mt19937 seeding, twist, tempering on Z; generate_canonical<double,53> on binary64): *)
 (* the engine reproduces the value the C++ standard prescribes for the 10000th output of a default-seeded mt19937 *)
-Theorem C17_engine_is_mt19937 : nth
-         (Init.Nat.of_num_uint
-            (Number.UIntDecimal (Decimal.D9 (Decimal.D9 (Decimal.D9 (Decimal.D9 Decimal.Nil))))))
-         (outputs_from
-            (Init.Nat.of_num_uint
-               (Number.UIntDecimal
-                  (Decimal.D1 (Decimal.D0 (Decimal.D0 (Decimal.D0 (Decimal.D0 Decimal.Nil)))))))
-            (mt_init 5489)) 0%Z = 4123659995%Z.
+Theorem C17_engine_is_mt19937 : nth (Z.to_nat 9999) (outputs_from (Z.to_nat 10000) (mt_init 5489)) 0%Z = 4123659995%Z.
 Proof. exact mt19937_standard_check. Qed.
 Print Assumptions C17_engine_is_mt19937.
 
